@@ -179,15 +179,14 @@ Definition esp (k : nat) (zs : list tc) : tc := nth k (esp_list k zs) t0.
 Definition psum (k : nat) (zs : list tc) : tc :=
   fold_right (fun z acc => tadd (tipow z k) acc) t0 zs.
 Definition ng_step (zs : list tc) (es : list tc) : tc :=
-  (* es = [e_{deg-1}; ...; e_0]  ->  e_deg *)
-  let deg := S (length es) in
+  (* es = [e_{deg-1}; ...; e_0] (deg entries)  ->  e_deg; the library divides by deg *)
   tdiv ((fix go (k : nat) (sgn : bool) (l : list tc) : tc :=
            match l with
            | [] => t0
            | e :: rest => let term := tmul e (psum k zs) in
                           tadd (if sgn then tneg term else term) (go (S k) (negb sgn) rest)
            end) 1%nat false es)
-       (tnat (length es + 1)).
+       (tnat (length es)).
 Fixpoint ng_list (deg : nat) (zs : list tc) : list tc :=   (* [e_deg; ...; e_0] *)
   match deg with
   | O => [t1]
